@@ -7,6 +7,7 @@ from __future__ import annotations
 
 import json
 import multiprocessing as mp
+import common
 import os
 import warnings
 
@@ -101,6 +102,11 @@ def analyse(rec: dict) -> dict:
         out["monitor"] = bad
     except ValueError as e:
         out["skip"] = "unserialisable: " + str(e)[:80]
+    except Exception as e:   # reading the finished result through the public API raised: the result object is inconsistent
+        import traceback
+        out["skip"] = "observe_error"
+        out["observe_error"] = "%s: %s" % (type(e).__name__, str(e)[:200])
+        out["observe_trace"] = traceback.format_exc()[-1500:]
     return out
 
 
@@ -241,7 +247,13 @@ def run(records: list[dict], want_cy: bool = False, shard: int = 40) -> list[dic
     ctx = mp.get_context("fork")
     with ctx.Pool(min(NCPU, 16)) as pool:
         res = pool.map(analyse, records, chunksize=4)
-    idx = [i for i, r in enumerate(res) if "expr" in r]
+    for r in res:
+        if "observe_error" in r:
+            common.OBSERVE_FAILURES.append({
+                "input": r["rec"], "observe_error": r["observe_error"], "trace": r["observe_trace"],
+                "spec": "the finished result must be readable through the public accessors (paths, sub-graphs, export) and be "
+                        "consistent between them; an accessor raised or returned nodes unknown to the graph it came from"})
+    idx = [i for i, r in enumerate(res) if "expr" in r and "skip" not in r]
     model = coq_eval(HEADER, [res[i]["expr"] for i in idx], shard=shard)
     for i, m in zip(idx, model):
         parts = m.split("@")
